@@ -236,6 +236,13 @@ func propE2E(c E2ECase) (o pbt.Outcome) {
 		conn.Write(append([]byte{5, 1, 0}, d.raw()...))
 		rep, rerr := readReply()
 		time.Sleep(15 * time.Millisecond)
+		if mayReach {
+			// the listener counts a connection when its Accept returns: poll,
+			// a loaded machine may need more than a few milliseconds
+			for end := time.Now().Add(3 * time.Second); s.conns.Load() == conns0 && time.Now().Before(end); {
+				time.Sleep(2 * time.Millisecond)
+			}
+		}
 		reached := s.conns.Load() > conns0
 		if !mayReach {
 			if reached {
@@ -272,6 +279,11 @@ func propE2E(c E2ECase) (o pbt.Outcome) {
 	frame := refproto.FrameUDPAssociate(append(append([]byte{0, 0, 0}, d.raw()...), []byte("probe")...))
 	conn.Write(frame)
 	time.Sleep(40 * time.Millisecond)
+	if mayReach {
+		for end := time.Now().Add(time.Second); s.dgs.Load() == dgs0 && time.Now().Before(end); {
+			time.Sleep(2 * time.Millisecond)
+		}
+	}
 	got := s.dgs.Load() > dgs0
 	if !mayReach && got {
 		o.Failf(fmt.Sprintf("udp-relay/form-%d", form), "user %q has no grant for class %d, yet a datagram relayed through its UDP association reached the local listener %s (header %+v)", c.User, class, s.name, d)
